@@ -36,7 +36,7 @@ for (kind, name), (verdict, obl, why) in sorted(rows.items()):
         continue
     d = os.path.join(HERE, 'benign', name)
     meta = json.load(open(os.path.join(d, 'meta.json')))
-    lvl = {'1': 'light', '2': 'medium', '3': 'heavier'}[name.split('-')[1]]
+    lvl = {'1': 'light', '2': 'medium', '3': 'heavier', '4': 'light (round 2)', '5': 'medium (round 2)', '6': 'heavier (round 2)'}.get(name.split('-')[1], '')
     print('| %s | %s | %s | %s |' % (name, lvl, verdict, why.replace('|', '/')))
     meta['detection'] = {'verdict': verdict, 'reason': why}
     json.dump(meta, open(os.path.join(d, 'meta.json'), 'w'), indent=1)
